@@ -269,7 +269,22 @@ func (b *TB) build(v ssa.Value) *Term {
 			if a, ok := v.X.(*ssa.Alloc); ok {
 				return b.cellValue(a)
 			}
-			if _, ok := v.X.(*ssa.FieldAddr); ok {
+			if fv, ok := v.X.(*ssa.FreeVar); ok {
+				// a captured variable of an inlined closure: the cell of the creating function
+				if t, bound := b.fvbind[fv]; bound && t.Op == "alloc" {
+					if a, isA := t.V.(*ssa.Alloc); isA {
+						return b.cellValue(a)
+					}
+				}
+			}
+			if fa, ok := v.X.(*ssa.FieldAddr); ok {
+				if a, isA := fa.X.(*ssa.Alloc); isA && len(b.stack)+len(b.bind)+len(b.fvbind) > 0 {
+					// a field of a local record (inside an inlined helper: the spilled value receiver, a record that
+					// carries what a closure used to capture): the value stored there
+					if xt := b.cellValue(a); xt.Op == "struct" && fa.Field < len(xt.Args) {
+						return xt.Args[fa.Field]
+					}
+				}
 				return b.Of(v.X) // field load: (x).F
 			}
 			if ia, ok := v.X.(*ssa.IndexAddr); ok {
